@@ -358,7 +358,10 @@ pub fn c05_peg_fee(_m: &mut Mon, ctx: &StepCtx, stats: &mut Stats, out: &mut Vec
     for r in hub_receives(ctx) {
         match (r.token, r.hook.as_str()) {
             (Some(Tok::B), "unbond") => {
-                let g = r.rec.attr("unbonded_amount").and_then(|s| s.parse::<u128>().ok()).unwrap_or(0);
+                // credited = growth of the sender's recorded claim in the then-open batch
+                let key_batch = pre.batch.id;
+                let find = |h: &crate::obs::HubObs| h.requests.get(&r.cw20_sender).and_then(|v| v.iter().find(|x| x.0 == key_batch).map(|x| x.1)).unwrap_or(0);
+                let g = find(post).saturating_sub(find(pre));
                 cases.push(("unbond", r.amount, g, 0));
             }
             (Some(Tok::St), "convert") => {
